@@ -18,6 +18,8 @@ BoolE(b) == [t |-> "bool", b |-> b]
 Cpx(a, b) == [t |-> "cpx", re |-> <<a, 1>>, im |-> <<b, 1>>]
 Meta(nm, tg, ty) == [name |-> nm, version |-> "1.0", target |-> tg, type |-> ty, incs |-> <<>>, body |-> <<>>]
 Metas == { Meta("rt", NoM, NoM),
+           \* a tdm program: its serialisation declares the variables; ordinary arrays passed to operations are still hoisted
+           Meta("rt3", NoM, [name |-> "tdm", hasargs |-> TRUE, args |-> <<>>, kw |-> <<Kw("temporal_modes", I(2))>>]),
            Meta("rt2", [name |-> "dev", hasargs |-> TRUE, args |-> <<>>,
                         kw |-> <<Kw("shots", I(10)), Kw("flag", BoolE(TRUE)), Kw("l", LstE(<<I(1), F(5, 2), Bin("+", I(1), I(1)), Bin("/", I(1), I(4))>>)), Kw("s", SStr("x")), Kw("z", Cpx(1, -2))>>],
                        [name |-> "foo", hasargs |-> TRUE, args |-> <<>>, kw |-> <<Kw("copies", I(3)), Kw("ls", LstE(<<SStr("a"), BoolE(FALSE)>>))>>]) }
